@@ -153,9 +153,9 @@ func runC39(c *Ctx) {
 		rule := "direct-using-writers"
 		allowed := map[string]string{
 			"kgo.directConsumer.findNewAssignments": "adds newly discovered partitions",
-			"kgo.Client.RemoveConsumePartitions":     "removes requested partitions",
-			"kgo.consumer.purgeTopics":               "forgets purged topics",
-			"kgo.consumer.initDirect":                "construction",
+			"kgo.Client.RemoveConsumePartitions":    "removes requested partitions",
+			"kgo.consumer.purgeTopics":              "forgets purged topics",
+			"kgo.consumer.initDirect":               "construction",
 		}
 		n := 0
 		for _, f := range m.FuncsIn("kgo") {
